@@ -94,6 +94,36 @@ pub fn check_print(rep: &mut Report, w: &[u32], seed: u64) -> bool {
             return false;
         }
     }
+    // Display under a non-default format specification (width, precision, alignment, fill, alternate): whatever the
+    // implementation does with the specification, what it prints - outer padding removed - must still be a literal
+    // that reads back to the same string
+    if w.len() <= 6 || w.len() % 7 == 0 {
+        let variants: Vec<(&str, Result<String, String>)> = vec![
+            ("{:3}", guard(|| format!("{:3}", s))),
+            ("{:12}", guard(|| format!("{:12}", s))),
+            ("{:>9}", guard(|| format!("{:>9}", s))),
+            ("{:^7}", guard(|| format!("{:^7}", s))),
+            ("{:<2}", guard(|| format!("{:<2}", s))),
+            ("{:#}", guard(|| format!("{:#}", s))),
+            ("{:1}", guard(|| format!("{:1}", s))),
+        ];
+        for (spec, r) in variants {
+            rep.inc("strings_printed_with_a_format_specification");
+            let out = match r {
+                Ok(o) => o,
+                Err(msg) => {
+                    rep.violation("print", "print:panic", format!("Display of {} with {} panicked: {}", show_str(w), spec, msg), "smtstring", &case, seed);
+                    return false;
+                }
+            };
+            let t: Vec<char> = out.trim_matches(' ').chars().collect();
+            let ok = t.len() >= 2 && t[0] == '"' && t[t.len() - 1] == '"' && o::undouble_quotes(&t[1..t.len() - 1]).map_or(false, |u| o::parse_literal(&u) == w);
+            if !ok {
+                rep.violation("roundtrip", &format!("roundtrip-spec:{}", spec), format!("{} printed with the format specification {} gives {:?}, which does not read back to the string", show_str(w), spec, out), "smtstring", &case, seed);
+                return false;
+            }
+        }
+    }
     // per-character printers agree with Display
     if w.len() == 1 {
         let a = char_to_smt(w[0]);
